@@ -545,6 +545,14 @@ func (f *Interface) reloadFirewall(c *config.C) {
 			"rulesVersion", fw.rulesVersion,
 		)
 	} else {
+		// Flows whose local address this node no longer handles (an unsafe network left the certificate) are over:
+		// Drop refuses their packets before conntrack is consulted, so they would never be revalidated and would be
+		// honoured again if the network came back while the entry is still alive.
+		for p := range conntrack.Conns {
+			if !fw.routableNetworks.Contains(p.LocalAddr) {
+				delete(conntrack.Conns, p)
+			}
+		}
 		fw.Conntrack = conntrack
 	}
 
